@@ -758,10 +758,6 @@ theorem sum_pairTerm_const (e f : Rat) (C : Name → Rat) (x : Slot) (hx : x ≠
 
 /-! ### marginal of a repacked stoichiometry -/
 
-/-- the isotopomers of `x` (with `n` positions) that are labelled at position `i` -/
-def labelledAt (x : Name) (n i : Nat) : List LName :=
-  ((patterns n).filter fun u => u.getD i false).map fun u => ⟨x, some u⟩
-
 theorem labelledAt_nodup (x : Name) (n i : Nat) : (labelledAt x n i).Nodup :=
   nodup_map_inj (by intro a b h; simpa using h) ((patterns_nodup n).filter _)
 
@@ -1010,5 +1006,228 @@ theorem sum_ite_mul {α} (l : List α) (c : Prop) [Decidable c] (F : α → Rat)
   by_cases h : c
   · simp [h]
   · simp [h, sum_map_zero]
+
+/-! ### assembling the marginal -/
+
+theorem sum_map_sub_rat {α} (l : List α) (F G : α → Rat) :
+    (l.map fun a => F a - G a).sum = (l.map F).sum - (l.map G).sum := by
+  induction l with
+  | nil => simp; grind
+  | cons a l ih => simp only [List.map_cons, List.sum_cons, ih]; grind
+
+theorem rat_sub_mul (a b c : Rat) : (a - b) * c = a * c - b * c := by grind
+
+/-- label flux through padded substrate position `l`, read off the rate suffixes -/
+def fluxAt (rs : List LRxn) (σ : LName → Rat) (l : Nat) : Rat :=
+  (rs.map fun rx => ind ((suffixOf rx).getD l false) * rx.rate σ).sum
+
+/-- the isotopomer side: d/dt of the amount of `x` labelled at `i`, as position fluxes -/
+theorem iso_marginal_as_flux {lv : List (Name × Nat)} {r : BRxn} {lm : List Nat} {rs : List LRxn}
+    (hok : isotopomerReactions lv r lm = .ok rs) (hwf : nProd lv r ≤ lm.length)
+    (σ : LName → Rat) (x : Name) (i : Nat) :
+    ((labelledAt x (labelsOf lv x) i).map (rhsOf rs σ)).sum
+      = ((List.range (slotsFlat lv (prodsOf r)).length).map fun h =>
+            if (slotsFlat lv (prodsOf r)).getD h Slot.ext = Slot.pos x i
+              then fluxAt rs σ (lm.getD h 0) else 0).sum
+        - ((List.range (slotsFlat lv (subsOf r)).length).map fun g =>
+            if (slotsFlat lv (subsOf r)).getD g Slot.ext = Slot.pos x i
+              then fluxAt rs σ g else 0).sum := by
+  have hr : rhsOf rs σ = fun n => (rs.map fun rx => (coefOf rx.stoich n : Rat) * rx.rate σ).sum := by
+    funext n; rfl
+  rw [hr, sum_swap]
+  -- per reaction
+  have hper : ∀ rx ∈ rs,
+      ((labelledAt x (labelsOf lv x) i).map fun n => ((coefOf rx.stoich n : Int) : Rat) * rx.rate σ).sum
+        = ((List.range (slotsFlat lv (prodsOf r)).length).map fun h =>
+              if (slotsFlat lv (prodsOf r)).getD h Slot.ext = Slot.pos x i
+                then ind ((suffixOf rx).getD (lm.getD h 0) false) * rx.rate σ else 0).sum
+          - ((List.range (slotsFlat lv (subsOf r)).length).map fun g =>
+              if (slotsFlat lv (subsOf r)).getD g Slot.ext = Slot.pos x i
+                then ind ((suffixOf rx).getD g false) * rx.rate σ else 0).sum := by
+    intro rx hrx
+    obtain ⟨w, hw, ps, hps, rfl⟩ := gen_of_mem hok rx hrx
+    have hwl : w.length = nSub lv r := mem_patterns.mp hw
+    have hpseq := ((msp_ok_iff _ _ _).mp hps).2
+    rw [sum_map_mul_right]
+    have hI := marginal_stoich_isoRxnOf lv r lm w ps hw hps hwf x i
+    have hcast : ((labelledAt x (labelsOf lv x) i).map fun n =>
+        ((coefOf (isoRxnOf r (subsOf r) (prodsOf r) (labelsPer lv (subsOf r))
+          (labelsPer lv (prodsOf r)) (extOf lv r) w ps).stoich n : Int) : Rat)).sum
+        = (((slotsFlat lv (prodsOf r)).zip ps).count (Slot.pos x i, true) : Nat)
+          - (((slotsFlat lv (subsOf r)).zip w).count (Slot.pos x i, true) : Nat) := by
+      have := congrArg (fun z : Int => (z : Rat)) hI
+      simp only [intCast_sum, List.map_map] at this
+      rw [show ((fun (i : Int) => (i : Rat)) ∘ coefOf (isoRxnOf r (subsOf r) (prodsOf r)
+          (labelsPer lv (subsOf r)) (labelsPer lv (prodsOf r)) (extOf lv r) w ps).stoich)
+          = fun n => ((coefOf (isoRxnOf r (subsOf r) (prodsOf r) (labelsPer lv (subsOf r))
+          (labelsPer lv (prodsOf r)) (extOf lv r) w ps).stoich n : Int) : Rat) from rfl] at this
+      rw [this]; push_cast; rfl
+    rw [hcast, count_zip_eq_sum, count_zip_eq_sum, rat_sub_mul, ← sum_map_mul_right, ← sum_map_mul_right]
+    have hsuf : suffixOf (isoRxnOf r (subsOf r) (prodsOf r) (labelsPer lv (subsOf r))
+        (labelsPer lv (prodsOf r)) (extOf lv r) w ps) = w ++ extOf lv r := rfl
+    rw [hsuf]
+    congr 1
+    · congr 1
+      apply List.map_congr_left
+      intro h hh
+      have hh' : h < lm.length := by
+        have := List.mem_range.mp hh
+        rw [slotsFlat_length] at this
+        exact Nat.lt_of_lt_of_le this hwf
+      have : ps.getD h false = (w ++ extOf lv r).getD (lm.getD h 0) false := by
+        rw [hpseq]
+        simp [List.getD_eq_getElem?_getD, List.getElem?_map, List.getElem?_eq_getElem hh']
+      rw [this]
+      split <;> simp
+    · congr 1
+      apply List.map_congr_left
+      intro g hg
+      have hg' : g < w.length := by
+        have := List.mem_range.mp hg
+        rw [slotsFlat_length] at this
+        rw [hwl]; exact this
+      have : w.getD g false = (w ++ extOf lv r).getD g false := by
+        simp [List.getD_eq_getElem?_getD, List.getElem?_append_left hg']
+      rw [this]
+      split <;> simp
+  rw [List.map_congr_left hper]
+  -- distribute over reactions and swap the sums
+  rw [sum_map_sub_rat]
+  have hswap : ∀ (n : Nat) (c : Nat → Prop) [DecidablePred c] (pos : Nat → Nat),
+      (rs.map fun rx => ((List.range n).map fun h =>
+          if c h then ind ((suffixOf rx).getD (pos h) false) * rx.rate σ else 0).sum).sum
+        = ((List.range n).map fun h => if c h then fluxAt rs σ (pos h) else 0).sum := by
+    intro n c _ pos
+    rw [← sum_swap]
+    apply congrArg
+    apply List.map_congr_left
+    intro h _
+    rw [sum_ite_mul]
+    rfl
+  rw [hswap _ (fun h => (slotsFlat lv (prodsOf r)).getD h Slot.ext = Slot.pos x i) (fun h => lm.getD h 0),
+    hswap _ (fun g => (slotsFlat lv (subsOf r)).getD g Slot.ext = Slot.pos x i) (fun g => g)]
+
+
+theorem getD_paddedSubs_lt (lv : List (Name × Nat)) (r : BRxn) {g : Nat}
+    (hg : g < (slotsFlat lv (subsOf r)).length) :
+    (paddedSubs lv r).getD g Slot.ext = (slotsFlat lv (subsOf r)).getD g Slot.ext := by
+  simp [paddedSubs, List.getD_eq_getElem?_getD, List.getElem?_append_left hg]
+
+theorem getD_paddedProds (lv : List (Name × Nat)) (r : BRxn) (q : Nat) :
+    (paddedProds lv r).getD q Slot.ext = (slotsFlat lv (prodsOf r)).getD q Slot.ext := by
+  simp only [paddedProds, List.getD_eq_getElem?_getD]
+  by_cases hq : q < (slotsFlat lv (prodsOf r)).length
+  · rw [List.getElem?_append_left hq]
+  · rw [List.getElem?_append_right (Nat.le_of_not_lt hq), List.getElem?_eq_none (Nat.le_of_not_lt hq)]
+    cases h : (List.replicate ((slotsFlat lv (subsOf r)).length - (slotsFlat lv (prodsOf r)).length)
+        Slot.ext)[q - (slotsFlat lv (prodsOf r)).length]? with
+    | none => rfl
+    | some s =>
+      have := List.mem_of_getElem? h
+      simp at this; simp [this.2]
+
+/-- the linear side (involutive map): the derivative of position `(x,i)`, as enrichments of the
+    documented sources -/
+theorem lin_marginal_as_enrich (lv : List (Name × Nat)) (r : BRxn) (lm : List Nat)
+    (hinv : InvolutiveMap (max (nSub lv r) (nProd lv r)) lm)
+    (E : Slot → Rat) (v C : Name → Rat) (x : Name) (i : Nat) :
+    linRhs (slotRxns r.name 0 (documentedSources (paddedSubs lv r) lm) (paddedProds lv r)) E v C
+        (Slot.pos x i)
+      = (1 / C x) * v r.name *
+          (((List.range (slotsFlat lv (prodsOf r)).length).map fun h =>
+              if (slotsFlat lv (prodsOf r)).getD h Slot.ext = Slot.pos x i
+                then E ((paddedSubs lv r).getD (lm.getD h 0) Slot.ext) else 0).sum
+            - ((slotsFlat lv (subsOf r)).count (Slot.pos x i) : Nat) * E (Slot.pos x i)) := by
+  have hN := hinv.1.length
+  have hinv' : InvolutiveMap (paddedSubs lv r).length lm := by rw [paddedSubs_length]; exact hinv
+  have hres := mapSubstratesToLabelmap_involutive _ lm hinv'
+  have hperm := mapSubstratesToLabelmap_perm_count _ lm hinv'.1 hres
+  have hlenres : (documentedSources (paddedSubs lv r) lm).length = (paddedProds lv r).length := by
+    simp [documentedSources, hN, paddedProds_length]
+  rw [linRhs_slotRxns, sum_pairTerm_general E (v r.name) C (Slot.pos x i) (by simp) _ _ hlenres]
+  simp only [Slot.base]
+  congr 1
+  have hcnt : (paddedSubs lv r).count (Slot.pos x i) = (slotsFlat lv (subsOf r)).count (Slot.pos x i) := by
+    simp only [paddedSubs]; exact count_append_ext _ _ _ _
+  rw [hperm.count_eq, hcnt]
+  congr 1
+  rw [sum_zip_eq_range _ _ Slot.ext Slot.ext (fun s p => if p = Slot.pos x i then E s else 0) hlenres]
+  have hlen2 : (documentedSources (paddedSubs lv r) lm).length
+      = (slotsFlat lv (prodsOf r)).length
+        + ((slotsFlat lv (subsOf r)).length - (slotsFlat lv (prodsOf r)).length) := by
+    rw [hlenres]; simp [paddedProds]
+  rw [hlen2, sum_range_extend]
+  · apply congrArg
+    apply List.map_congr_left
+    intro h hh
+    have hh' : h < lm.length := by
+      have := List.mem_range.mp hh
+      rw [slotsFlat_length] at this
+      rw [hN]
+      exact Nat.lt_of_lt_of_le this (Nat.le_max_right _ _)
+    rw [getD_paddedProds]
+    have : (documentedSources (paddedSubs lv r) lm).getD h Slot.ext
+        = (paddedSubs lv r).getD (lm.getD h 0) Slot.ext := by
+      simp [documentedSources, List.getD_eq_getElem?_getD, List.getElem?_map,
+        List.getElem?_eq_getElem hh']
+    rw [this]
+  · intro q hq
+    rw [getD_paddedProds, List.getD_eq_getElem?_getD, List.getElem?_eq_none hq]
+    simp
+
+
+theorem marginal_full {lv : List (Name × Nat)} {r : BRxn} {lm : List Nat} {rs : List LRxn}
+    (hok : isotopomerReactions lv r lm = .ok rs)
+    (hm : MassAction lv r) (hd : DistinctOccurrences lv r)
+    (hinv : InvolutiveMap (max (nSub lv r) (nProd lv r)) lm) (σ : LName → Rat)
+    (hC : ∀ c ∈ subsOf r, labelsOf lv c > 0 → totalOf σ c (labelsOf lv c) ≠ 0)
+    (C : Name → Rat) (x : Name) (i : Nat) :
+    linRhs (slotRxns r.name 0 (documentedSources (paddedSubs lv r) lm) (paddedProds lv r))
+        (enrichOf lv σ) (fun _ => r.rate (totalsEnv lv σ)) C (Slot.pos x i)
+      = (1 / C x) * ((labelledAt x (labelsOf lv x) i).map (rhsOf rs σ)).sum := by
+  have hN := hinv.1.length
+  have hwf : nProd lv r ≤ lm.length := by rw [hN]; exact Nat.le_max_right _ _
+  rw [lin_marginal_as_enrich lv r lm hinv, iso_marginal_as_flux hok hwf]
+  have hflux : ∀ l, l < max (nSub lv r) (nProd lv r) →
+      fluxAt rs σ l = enrichOf lv σ ((paddedSubs lv r).getD l Slot.ext) * r.rate (totalsEnv lv σ) :=
+    fun l hl => position_flux hok hm hd σ hC l hl
+  -- production
+  have hprod : ((List.range (slotsFlat lv (prodsOf r)).length).map fun h =>
+        if (slotsFlat lv (prodsOf r)).getD h Slot.ext = Slot.pos x i
+          then fluxAt rs σ (lm.getD h 0) else 0).sum
+      = ((List.range (slotsFlat lv (prodsOf r)).length).map fun h =>
+          if (slotsFlat lv (prodsOf r)).getD h Slot.ext = Slot.pos x i
+            then enrichOf lv σ ((paddedSubs lv r).getD (lm.getD h 0) Slot.ext) else 0).sum
+        * r.rate (totalsEnv lv σ) := by
+    rw [← sum_map_mul_right]
+    apply congrArg
+    apply List.map_congr_left
+    intro h hh
+    have hh' : h < max (nSub lv r) (nProd lv r) := by
+      have := List.mem_range.mp hh
+      rw [slotsFlat_length] at this
+      exact Nat.lt_of_lt_of_le this (Nat.le_max_right _ _)
+    rw [hflux _ (hinv.1.getD_lt hh')]
+    split <;> simp
+  -- consumption
+  have hcons : ((List.range (slotsFlat lv (subsOf r)).length).map fun g =>
+        if (slotsFlat lv (subsOf r)).getD g Slot.ext = Slot.pos x i then fluxAt rs σ g else 0).sum
+      = ((slotsFlat lv (subsOf r)).count (Slot.pos x i) : Nat)
+          * (enrichOf lv σ (Slot.pos x i) * r.rate (totalsEnv lv σ)) := by
+    rw [count_eq_range_sum _ _ (by simp), ← sum_map_mul_right]
+    apply congrArg
+    apply List.map_congr_left
+    intro g hg
+    have hg0 := List.mem_range.mp hg
+    have hg' : g < max (nSub lv r) (nProd lv r) := by
+      have := hg0
+      rw [slotsFlat_length] at this
+      exact Nat.lt_of_lt_of_le this (Nat.le_max_left _ _)
+    rw [hflux g hg', getD_paddedSubs_lt lv r hg0]
+    by_cases e : (slotsFlat lv (subsOf r)).getD g Slot.ext = Slot.pos x i
+    · rw [if_pos e, if_pos e, e]; grind
+    · rw [if_neg e, if_neg e]; grind
+  rw [hprod, hcons]
+  grind
 
 end Mxl.C16
